@@ -23,6 +23,7 @@ from . import sym as S
 from .sym import Sym, Unsupported, is_sym, lift, B, And, Or, Not, Implies
 from .interp import Interp, RaiseEx, deep_has_sym, Path
 from . import models, solve
+from . import models_datetime  # noqa: F401  (registers the datetime models)
 
 
 def resolve(qualname):
